@@ -1344,6 +1344,7 @@ class Evaluator(CallMixin, StmtMixin):
                     l.pytype = pytype
                     return l
             var = self.generic_element(it, g.target, e)
+            self.run.__dict__["last_generic_var"] = var
             self.bind_target(g.target, var, e)
             # describe value-dependent filter conditions without forking
             cond_atoms: List[Any] = []
